@@ -7,6 +7,7 @@ import (
 
 	"github.com/zitadel/saml/pkg/provider/serviceprovider"
 	"github.com/zitadel/saml/pkg/provider/signature"
+	"github.com/zitadel/saml/pkg/provider/xml"
 	"github.com/zitadel/saml/pkg/provider/xml/md"
 	"github.com/zitadel/saml/pkg/provider/xml/samlp"
 	"github.com/zitadel/saml/pkg/provider/xml/xml_dsig"
@@ -43,6 +44,20 @@ func signaturePostVerificationNecessary(
 			signaturePostProvided(signatureF)()) &&
 			protocolBinding() == PostBinding
 	}
+}
+
+// postSignedDocument returns, base64-encoded, the document a POST-binding request was read from: a message announced as
+// deflated is inflated first, so that the signature is verified on the document that is acted on and not on another reading
+// of the same bytes
+func postSignedDocument(encoding string, message string) string {
+	if encoding == "" {
+		return message
+	}
+	data, err := xml.InflateAndDecode(encoding, true, message)
+	if err != nil {
+		return ""
+	}
+	return base64.StdEncoding.EncodeToString(data)
 }
 
 func verifyPostSignature(
